@@ -1214,6 +1214,10 @@ func c16Text(r *proto.Rng, o c16Opts, maxRec int) (text string, width int, ragge
 	}
 	var sb strings.Builder
 	cell := 0
+	if nrec > 0 && r.Chance(1, 15) {
+		// a text that opens with a byte order mark: part of the first field for a standard CSV parse
+		sb.WriteString("\ufeff")
+	}
 	for i := 0; i < nrec; i++ {
 		w := width
 		if ragged && r.Chance(1, 2) {
